@@ -60,7 +60,7 @@ PROPS.update({
         "monitors": ["C10"],
         "extra": ["tables", "stress"],
         "corr": corr(["abandon", "timeouts", "burst", "mixed"]),
-        "extract_items": ["ErrorKind"],
+        "extract_items": ["ErrorKind", "forwarders", "timeout_wrappers"],
         "assumptions": COMMON_ASSUME + ["tokio::time::timeout polls the inner future first and fires no earlier than its deadline"],
     },
     "C13": {
@@ -79,10 +79,11 @@ PROPS.update({
 PROPS.update({
     "C04": {
         "level": "proof",
-        "text": "Kernel-checked for every run: the actor's hook events form a word of the lifecycle automaton (on_start once and first, handlers never overlapping, on_stop at most once and last, nothing after a panic but the join); on_stop(killed=true) only after a kill() was issued and exactly in the step that consumes the signal; on_stop ran iff the actor ended by stop/kill/unreferenced/on_run error. The same three predicates (C04.accepts, killedOnlyIfKill, stopIffCause) are evaluated on every real trace; causes land at every phase through the generators.",
+        "text": "Kernel-checked for every run: the actor's hook events form a word of the lifecycle automaton (on_start once and first, handlers never overlapping, on_stop at most once and last, nothing after a panic but the join); on_stop(killed=true) only after a kill() was issued and exactly in the step that consumes the signal; on_stop ran iff the actor ended by stop/kill/unreferenced/on_run error. The same three predicates (C04.accepts, killedOnlyIfKill, stopIffCause) are evaluated on every real trace; causes land at every phase through the generators. Real-time side: stress scenario `backlog` (1-200 tells queued before the actor first runs; on_run default / parked / ticking / failing once the backlog is done; then stop() or drop of the last reference): on_stop(killed=false) runs exactly once, after the failing on_run pass where there is one.",
         "note": PROOF_NOTE,
         "technique": "Lean 4 fold-invariant proofs (lifecycle automaton, kill fold, result summary) over label sequences + correspondence + Lean monitors on real traces",
         "monitors": ["C04"],
+        "extra": ["stress"],
         "corr": corr(["eager", "shutdown", "mixed", "burst", "idle", "handles"]),
         "extract_items": [],
         "assumptions": COMMON_ASSUME,
@@ -128,7 +129,7 @@ PROPS.update({
 PROPS.update({
     "C07": {
         "level": "proof",
-        "text": "Kernel-checked step theorems (for every state, hence every reachable one): never_spontaneous (a live actor begins to stop only by consuming a kill, observing zero strong references, dequeuing the stop marker, or an on_run error), ends_only_after_stop_or_crash, weak_dont_count, upgrade_iff, closed_means_unreferenced (the reference count includes handles, queued envelopes and markers, blocked senders, the running handler, operations in flight), and progress lemmas ends_when_unreferenced / ends_when_stopped. On real traces: C07.neverSpontaneous on every trace and endsWhenDue on settled (fully drained) traces; the handles family walks clone/drop/downgrade/upgrade histories.",
+        "text": "Kernel-checked step theorems (for every state, hence every reachable one): never_spontaneous (a live actor begins to stop only by consuming a kill, observing zero strong references, dequeuing the stop marker, or an on_run error), ends_only_after_stop_or_crash, weak_dont_count, upgrade_iff, closed_means_unreferenced (the reference count includes handles, queued envelopes and markers, blocked senders, the running handler, operations in flight), and progress lemmas ends_when_unreferenced / ends_when_stopped. On real traces: C07.neverSpontaneous on every trace and endsWhenDue on settled (fully drained) traces; the handles family walks clone/drop/downgrade/upgrade histories. Stress scenario `backlog`: with any kind of on_run and backlogs of up to 200 queued messages, stop() or the drop of the last reference ends the actor after all of them were handled.",
         "note": PROOF_NOTE + " Liveness (the JoinHandle eventually resolves) is stated as progress lemmas plus the settled-trace monitor, not as a temporal theorem.",
         "technique": "Lean 4 case-analysis theorems on the step function + correspondence on handle histories + Lean monitors on settled real traces",
         "monitors": ["C07", "C01", "C02"],
@@ -200,7 +201,7 @@ PROPS.update({
 PROPS.update({
     "C16": {
         "level": "proof",
-        "text": "Kernel-checked: forwarders_verbatim (the table of all 28 trait-object methods, read from src/handler.rs and src/actor_control.rs on every run, forwards each method to the inherent method of the same name with the same arguments, strong traits implemented by ActorRef only, weak traits by ActorWeak only), conversions_keep_strength (every From conversion boxes the value itself or its clone: strong->strong, weak->weak), clone_keeps_strength / keeps_alive (model). Since each erased operation IS the direct one, all C01-C15 theorems transfer. Real side: every seeded script is run twice against the same model, once on ActorRef/ActorWeak directly and once with every operation (tell/ask/timeouts/stop/kill/clone/downgrade/upgrade/is_alive/identity) routed through a trait object chosen per operation (TellHandler, AskHandler, ActorControl, Weak*; via From<&ActorRef>, From<ActorRef>, clone_boxed, as_control, as_weak_control); the two runs must both equal the model's run step by step, hence each other; identity/upgrade/downgrade mismatches are logged as events that the model never produces.",
+        "text": "Kernel-checked: forwarders_verbatim (the table of all 28 trait-object methods, read from src/handler.rs and src/actor_control.rs on every run, forwards each method to the inherent method of the same name with the same arguments, strong traits implemented by ActorRef only, weak traits by ActorWeak only), conversions_keep_strength (every From conversion boxes the value itself or its clone: strong->strong, weak->weak), clone_keeps_strength / keeps_alive (model). Since each erased operation IS the direct one, all C01-C15 theorems transfer. Real side: every seeded script is run twice against the same model, once on ActorRef/ActorWeak directly and once with every operation (tell/ask/timeouts/stop/kill/clone/downgrade/upgrade/is_alive/identity) routed through a trait object chosen per operation (TellHandler, AskHandler, ActorControl, Weak*; via From<&ActorRef>, From<ActorRef>, clone_boxed, as_control, as_weak_control); the two runs must both equal the model's run step by step, hence each other; identity/upgrade/downgrade mismatches are logged as events that the model never produces. Stress scenario `erasedblk`: blocking_tell / blocking_ask directly and through Box<dyn TellHandler> / Box<dyn AskHandler> over timeouts {None, zero, 40 ms, 2 s} and actor states {idle, busy, full mailbox, ended} give the same outcome class.",
         "note": PROOF_NOTE,
         "technique": "Lean 4 theorems over the forwarder table extracted from the source + double correspondence (direct and type-erased) against one model",
         "monitors": ["C01", "C02", "C03", "C07", "C11", "C13"],
@@ -211,7 +212,7 @@ PROPS.update({
     },
     "C17": {
         "level": "proof",
-        "text": "PARTIAL (the wall-clock deadline bound is checked on real runs only, see the end of this text). Kernel-checked: aliases (tell_blocking/ask_blocking delegate to blocking_tell/blocking_ask and the dispatchers pick the timeout/no-timeout implementation: extracted), blocking_same_paths (blocking variants build the same envelope and use the same sender as tell/ask; timeout variants run tell/ask under tokio::time::timeout on a helper thread with a timer runtime: extracted), blocking_inherits (every label-list theorem covers callers on any thread: at-most-once, rejected-never, reply integrity, dead letters). Real side (multi-thread runtime, real clock): 1/4/16 plain threads issuing all six blocking forms against a live actor (delivery exactly once, per-thread order, reply integrity, aliases ignore the timeout); deadlines against a slow actor with a full mailbox (not early, not later than deadline + 300 ms); stopped actor (every variant fails at once with Send and a dead letter); timeout variants called from inside a runtime context (no panic). NOT proved: the wall-clock bound itself (it is a property of the OS scheduler, thread spawn and Tokio timer; checked with slack on real runs only).",
+        "text": "PARTIAL (the wall-clock deadline bound is checked on real runs only, see the end of this text). Kernel-checked: aliases (tell_blocking/ask_blocking delegate to blocking_tell/blocking_ask and the dispatchers pick the timeout/no-timeout implementation: extracted), blocking_same_paths (blocking variants build the same envelope and use the same sender as tell/ask; timeout variants run tell/ask under tokio::time::timeout on a helper thread with a timer runtime: extracted), blocking_inherits (every label-list theorem covers callers on any thread: at-most-once, rejected-never, reply integrity, dead letters). Real side (multi-thread runtime, real clock): 1/4/16 plain threads issuing all six blocking forms against a live actor (delivery exactly once, per-thread order, reply integrity, aliases ignore the timeout); deadlines against a slow actor with a full mailbox (not early, not later than deadline + 300 ms); stopped actor (every variant fails at once with Send and a dead letter); timeout variants called from inside a runtime context (no panic). NOT proved: the wall-clock bound itself (it is a property of the OS scheduler, thread spawn and Tokio timer; checked with slack on real runs only). The deprecated aliases given Some(30 ms) against a full mailbox / a slow handler wait like the None forms (b9); a blocking call that timed out records exactly one dead letter whatever happens to the actor afterwards (b10).",
         "note": PROOF_NOTE + " The blocking API needs real threads; the step-by-step correspondence (single-threaded, paused clock) cannot run it, so the real side is oracle-only.",
         "technique": "Lean 4 theorems on the model + extracted send-path equalities; real-thread stress runs under property oracles",
         "monitors": ["C01", "C03", "C13"],
@@ -225,7 +226,7 @@ PROPS.update({
 PROPS.update({
     "C20": {
         "level": "proof",
-        "text": "Kernel-checked on the collector translated from src/metrics/collector.rs on every run: count_len (message_count = number of records, any sequence), count_monotone / never_decreases, avg_le_max (via the invariant total <= count*max, saturation included), max_ge_each (max >= every recorded duration, capped at u64::MAX ns), snapshot_agrees; on the actor model: count_exact (in every reachable state message_count + [a handler is running] = number of handlers entered; stop markers and leftovers never enter a handler), max_ge_handler. The guard (records once, on drop, elapsed time) and its placement (one site, envelope arm, straight before the handler call, alive to the end of the arm) are extracted shape lemmas. Real side: harness built with the metrics feature (and all others); after every macro-step of every seeded script every live strong or weak-upgradable handle is read: message_count() = handlers entered and left (harness's own counter), never decreases, avg <= max, max >= the longest time measured strictly inside a handler body, metrics() snapshot = accessors, all handles agree, values stay readable after the actor ended (handles outlive it in most scripts); translation differential for the collector (tables).",
+        "text": "Kernel-checked on the collector translated from src/metrics/collector.rs on every run: count_len (message_count = number of records, any sequence), count_monotone / never_decreases, avg_le_max (via the invariant total <= count*max, saturation included), max_ge_each (max >= every recorded duration, capped at u64::MAX ns), snapshot_agrees; on the actor model: count_exact (in every reachable state message_count + [a handler is running] = number of handlers entered; stop markers and leftovers never enter a handler), max_ge_handler. The guard (records once, on drop, elapsed time) and its placement (one site, envelope arm, straight before the handler call, alive to the end of the arm) are extracted shape lemmas. Real side: harness built with the metrics feature (and all others); after every macro-step of every seeded script every live strong or weak-upgradable handle is read: message_count() = handlers entered and left (harness's own counter), never decreases, avg <= max, max >= the longest time measured strictly inside a handler body, metrics() snapshot = accessors, all handles agree, values stay readable after the actor ended (handles outlive it in most scripts); translation differential for the collector (tables). Script family `streak`: 130-190 handlers that finish at once followed by one that is held for milliseconds of real time, so that sampling or adaptive shortcuts in the guard show up as max < time demonstrably spent in a handler.",
         "note": PROOF_NOTE + " Durations come from std::time::Instant; the oracle compares max against a lower bound measured inside the handler, never against exact times.",
         "technique": "Lean 4 proofs on the translated collector and on the actor model + extracted guard placement + metrics oracle at every quiescent point of the correspondence runs (metrics build)",
         "monitors": ["C04"],
@@ -253,11 +254,11 @@ PROPS.update({
 PROPS.update({
     "C19": {
         "level": "proof",
-        "text": "Kernel-checked: decision_table - for every form of the #[handler] attribute (bare, any list of result/no_log/unknown options in any order and multiplicity, name-value), every declared return type (none, any path type, any other type) and both answers to 'is it really a Result', the macro's decision (compile error / impl that logs Err after tell / impl that logs nothing) equals the documented table stated independently; corollaries no_log_never_logs, result_and_no_log_is_error, non_result_logs_nothing, result_spelling_logs. is_result_type and the should_generate block are translated from rsactor-derive/src/lib.rs on every run; option parsing and the quote! templates (Reply = declared return type, handle = self.method(msg, actor_ref).await, generated on_tell_result = `if let Err(ref e) = result { error!(..) }` only, derive(Actor) = Args Self / Infallible / Ok(args), generics forwarded) are extracted shape lemmas; the runtime calls on_tell_result only without a reply channel (handle_message_shape). Real side: a generated corpus of actor programs over the grammar return-type spelling (15: unit, plain, Result in five spellings incl. bare fmt::Result and bare/generic aliases, alias not named Result, Option, tuple, Box, reference, a user type named Result) x attribute form (11) x actor kind (struct, enum, generic, generic with where clause) x message kind (plain, generic), each with co-existing non-handler methods, compiled against the real macros: programs the model calls errors must fail to compile (without any use site, so only the macro or its output can fail), the others are run through ask and tell with Ok and Err values: replies equal the method's value, error events after tell(Err) = 1 iff the model says 'log' (with the error's Display text), 0 after ask and after tell(Ok), the handler ran once per message, derive(Actor) hands back its argument. Runtime half, kernel-checked on the actor model: tell_result_adjacent (in every run tellResult/replySent occur only immediately after the handler of the same message returned, at most one of them, never after a panic) and result_follows_kind (a tell's handler is followed by on_tell_result and no reply, an ask's by its reply and no on_tell_result); the same automaton (C19.accepts) and the kind-aware C19.adjacent run on every real correspondence trace.",
+        "text": "Kernel-checked: decision_table - for every form of the #[handler] attribute (bare, any list of result/no_log/unknown options in any order and multiplicity, name-value), every declared return type (none, any path type, any other type) and both answers to 'is it really a Result', the macro's decision (compile error / impl that logs Err after tell / impl that logs nothing) equals the documented table stated independently; corollaries no_log_never_logs, result_and_no_log_is_error, non_result_logs_nothing, result_spelling_logs. is_result_type and the should_generate block are translated from rsactor-derive/src/lib.rs on every run; option parsing and the quote! templates (Reply = declared return type, handle = self.method(msg, actor_ref).await, generated on_tell_result = `if let Err(ref e) = result { error!(..) }` only, derive(Actor) = Args Self / Infallible / Ok(args), generics forwarded) are extracted shape lemmas; the runtime calls on_tell_result only without a reply channel (handle_message_shape). Real side: a generated corpus of actor programs over the grammar return-type spelling (15: unit, plain, Result in five spellings incl. bare fmt::Result and bare/generic aliases, alias not named Result, Option, tuple, Box, reference, a user type named Result) x attribute form (11) x actor kind (struct, enum, generic, generic with where clause) x message kind (plain, generic), each with co-existing non-handler methods, compiled against the real macros: programs the model calls errors must fail to compile (without any use site, so only the macro or its output can fail), the others are run through ask and tell with Ok and Err values: replies equal the method's value, error events after tell(Err) = 1 iff the model says 'log' (with the error's Display text), 0 after ask and after tell(Ok), the handler ran once per message, derive(Actor) hands back its argument. Runtime half, kernel-checked on the actor model: tell_result_adjacent (in every run tellResult/replySent occur only immediately after the handler of the same message returned, at most one of them, never after a panic) and result_follows_kind (a tell's handler is followed by on_tell_result and no reply, an ask's by its reply and no on_tell_result); the same automaton (C19.accepts) and the kind-aware C19.adjacent run on every real correspondence trace. Real threads: in the blocking stress scenario the actor overrides on_tell_result: after every tell-family blocking form (blocking_tell with and without timeout, tell_blocking) it is invoked exactly once with the handler's value, after ask-family forms never.",
         "note": PROOF_NOTE + " rustc's own behaviour (trait resolution, `if let Err` typing) is part of the trusted base of the corpus run.",
         "technique": "Lean 4 proof of the decision table over definitions translated from the macro source + extracted templates + generated program corpus compiled and run against the real macros",
         "monitors": ["C19", "C01"],
-        "extra": ["macrocorpus"],
+        "extra": ["macrocorpus", "stress"],
         "corr": corr(["mixed", "burst"], nq=100, nt=1000),
         "extract_items": ["is_result_type", "should_generate", "handler_options", "macro_templates", "handle_message"],
         "assumptions": COMMON_ASSUME + ["the abstraction of a return type to (path segments' identifiers == Result, other) is done by the corpus generator and is part of the trusted base"],
